@@ -32,6 +32,25 @@ Record ereply := Rep { p_cmd : Z; p_sess : Z; p_status : Z; p_ctx : list Z; p_op
 
 Record sstate := SS { s_store : store; s_nreg : nat }.
 
+(* server/enip/device.py Connection_Manager.request: a single request is dispatched to the Object its path names (class, instance);
+   one that names no existing Object is not dispatched at all - the UCMM answers with status 8 and the session ends.  Symbolic
+   paths (known tag: its Object exists; unknown tag: the Message Router reports it) and bundles (the Message Router's own
+   service) are always dispatched.  The Objects: those holding a tag's Attribute, the simulator's standard ones (Identity 1/1,
+   Message Router 2/1, Connection Manager 6/1, 0x66/1, TCP/IP 0xF5/1, Logical Segments 0xAC/1), and instance 0 of every such class. *)
+Definition std_classes : list Z := [1; 2; 6; 102; 245; 172].
+Definition class_known (st : store) (c : Z) : bool :=
+  existsb (Z.eqb c) std_classes || existsb (fun e => let '((c', _, _), _) := e in c =? c') (s_dir st).
+Definition obj_exists (st : store) (c i : Z) : bool :=
+  ((i =? 0) && class_known st c) || ((i =? 1) && existsb (Z.eqb c) std_classes)
+  || existsb (fun e => let '((c', i', _), _) := e in (c =? c') && (i =? i')) (s_dir st).
+Definition req_target (r : req) : option path :=
+  match r with
+  | ReadTag p _ | ReadFrag p _ _ | WriteTag p _ _ _ | WriteFrag p _ _ _ _ | GetAttr p | SetAttr p _ => Some p
+  | Multiple _ => None
+  end.
+Definition unroutable (st : store) (r : req) : bool :=
+  match req_target r with Some (PNum c i _ _) => negb (obj_exists st c i) | _ => false end.
+
 (* the session handles the simulator allocates (random, never 0): an oracle indexed by allocation count *)
 Section Session.
   Variable handle_of : nat -> Z.
@@ -47,6 +66,7 @@ Section Session.
     | QUnregister _ => (s, None, false)
     | QList c _ => (s, Some (Rep c (e_sess e) 0 (e_ctx e) (e_opts e) (BList c)), true)
     | QSend _ rp r =>
+        if unroutable (s_store s) r then (s, Some (Rep 111 (e_sess e) 8 (e_ctx e) (e_opts e) BNone), false) else
         match ucmm_local cfg maxb (s_store s) rp r with
         | (st', UReply (Some bs)) => (SS st' (s_nreg s), Some (Rep 111 (e_sess e) 0 (e_ctx e) (e_opts e) (BCip bs)), true)
         | (st', UReply None) => (SS st' (s_nreg s), Some (Rep 111 (e_sess e) 8 (e_ctx e) (e_opts e) BNone), false)
